@@ -57,7 +57,7 @@ func genC03(rng *rand.Rand, tier string) *sim.Plan {
 	}
 	modes := []string{"", "", "never", "hold", "late", "reconly", "err"}
 	connect := func(clean bool) sim.Op {
-		op := sim.Op{K: "connect", C: 0, Clean: clean, RecvMax: rm, Ack: pick(rng, modes)}
+		op := sim.Op{K: "connect", C: 0, Clean: clean, RecvMax: rm, Ack: pick(rng, modes), AckDup: chance(rng, 0.3)}
 		if sv == 5 {
 			op.ExpiryS = sim.U32(3600)
 		}
